@@ -31,8 +31,8 @@ type RunResult struct {
 	Steps      int            `json:"steps"`
 	Served     int            `json:"served"`
 	SimMs      int64          `json:"sim_ms"`
-	Hash       string         `json:"hash"`      // hash of the full event log (determinism)
-	Shape      string         `json:"shape"`     // hash of the kind/entity sequence (interleaving measure)
+	Hash       string         `json:"hash"`  // hash of the full event log (determinism)
+	Shape      string         `json:"shape"` // hash of the kind/entity sequence (interleaving measure)
 	Faults     map[string]int `json:"faults,omitempty"`
 	Probes     map[string]int `json:"probes,omitempty"`
 	Diverged   string         `json:"diverged,omitempty"`
